@@ -14,9 +14,11 @@ for f in sorted(glob.glob(os.path.join(V, 'seeded', '*', 'meta.json'))):
               for p, c in checks.items() if c['exit'] == 1]
     missed = [p for p, c in checks.items() if c['exit'] == 0]
     err = [p for p, c in checks.items() if c['exit'] == 2]
-    rows.append('| %s | %s | %s | %s | %s | %s |' % (
+    first = 'missed, caught after strengthening' \
+        if (m.get('notes') or '').startswith('First run: MISSED') else 'caught'
+    rows.append('| %s | %s | %s | %s | %s | %s | %s |' % (
         name, m.get('property'), (m.get('breaks') or '')[:160].replace('|', '/'),
-        'yes' if ok else 'NO: %r' % v,
+        'yes' if ok else 'NO: %r' % v, first,
         ', '.join(caught) or '-', ', '.join(missed + ['ERR:' + e for e in err]) or '-'))
 out = ['# Seeded changes (written by sub-agents that saw only the property text)',
        '',
@@ -24,7 +26,7 @@ out = ['# Seeded changes (written by sub-agents that saw only the property text)
        'it, fails with it; the 161 pinned tests still pass) and the checks '
        'were run against the patched tree.  `notes` in each meta.json say '
        'what was strengthened when a change was first missed.', '',
-       '| id | property | what it breaks | verified | caught by | not caught by |',
-       '|---|---|---|---|---|---|'] + rows
+       '| id | property | what it breaks | verified | first run | now caught by | not caught by |',
+       '|---|---|---|---|---|---|---|'] + rows
 open(os.path.join(V, 'seeded', 'SUMMARY.md'), 'w').write('\n'.join(out) + '\n')
 print('\n'.join(out))
